@@ -23,7 +23,7 @@ func startWorker(c *Config, extra []string) (*workerProc, error) {
 	self, _ := os.Executable()
 	args := append([]string{"worker"}, extra...)
 	cmd := exec.Command(self, args...)
-	cmd.Env = append(os.Environ(), "GOMAXPROCS=2", "GOGC=400")
+	cmd.Env = append(os.Environ(), "GOMAXPROCS=2", "GOGC=off", "GOMEMLIMIT=1200MiB")
 	cmd.Stderr = os.Stderr
 	inp, _ := cmd.StdinPipe()
 	outp, _ := cmd.StdoutPipe()
